@@ -200,3 +200,15 @@ Theorem C08_source_context_formatter_is_model :
   /\ gen_context_iter_formatted_strings_call = mk_src_ambient true true.
 Proof. exact context_formatter_is_model. Qed.
 Print Assumptions C08_source_context_formatter_is_model.
+
+From PV Require Import Leaves GenProofs.
+Open Scope string_scope.
+(** in which namespace a !py expression is evaluated, read from the source
+    ([Context.get_eval_string]): a chain whose first map is a fresh empty dict made by that call, then
+    the context, then the imports — a name bound by := in one expression can neither reach the context
+    nor be seen by a later expression *)
+Theorem C08_source_eval_scope_is_fresh_chain :
+  gen_eval_scope = (["{}"; "self"; "self._pystring_globals"]%list, true).
+Proof. exact gen_eval_scope_is_fresh_chain. Qed.
+Print Assumptions C08_source_eval_scope_is_fresh_chain.
+
